@@ -209,8 +209,7 @@ func (c *ConditionNot) ToSCParameter() (smartcontract.Parameter, error) {
 
 // Copy implements the WitnessCondition interface and returns a deep copy of the condition.
 func (c *ConditionNot) Copy() WitnessCondition {
-	cp := *c
-	return &cp
+	return &ConditionNot{Condition: c.Condition.Copy()}
 }
 
 // Type implements the WitnessCondition interface and returns condition type.
